@@ -481,5 +481,56 @@ func c13Mac(x *runCtx, r *rand.Rand) {
 				x.r.Violate(rep.Violation{Kind: "oracle", Check: "C13.mac0-tamper", Signature: "C13.mac0:tag-unchanged:" + what, Input: input, PropertyFails: true})
 			}
 		}
+		// The way a received Mac0 is verified in this library (kex.SessionCrypter.Decrypt is the only verifier it has): keep
+		// the received tag, recompute in place on the decoded object, compare. Done here exactly like that — without
+		// copying the received tag first — on the honest object and on objects altered on the wire.
+		verify := func(wire []byte, k, a []byte) (ok bool, res string) {
+			defer func() {
+				if p := recover(); p != nil {
+					ok, res = false, "panic"
+				}
+			}()
+			var d cose.Mac0Tag[cbor.RawBytes, []byte]
+			if err := cbor.Unmarshal(wire, &d); err != nil {
+				return false, "undecodable"
+			}
+			received := d.Value
+			if err := d.Digest(alg, k, nil, a); err != nil {
+				return false, "error"
+			}
+			return bytes.Equal(d.Value, received), "compared"
+		}
+		if ok, res := verify(enc, key, aad); !ok {
+			x.r.Violate(rep.Violation{Kind: "oracle", Check: "C13.mac0-verify", Signature: "C13.mac0-verify:honest-rejected:" + res, Input: input, PropertyFails: true})
+		}
+		tagAt := bytes.LastIndex(enc, sent)
+		wires := map[string][]byte{}
+		if tagAt > 0 {
+			for _, bit := range []int{0, len(sent)*8 - 1, r.IntN(len(sent) * 8)} {
+				w := append([]byte{}, enc...)
+				w[tagAt+bit/8] ^= 1 << (bit % 8)
+				wires[fmt.Sprintf("tag-bit-%d", bit)] = w
+			}
+			zero := append([]byte{}, enc...)
+			for j := 0; j < len(sent); j++ {
+				zero[tagAt+j] = 0
+			}
+			wires["tag-zero"] = zero
+		}
+		for what, w := range wires {
+			ok, res := verify(w, key, aad)
+			if res == "panic" {
+				x.r.Violate(rep.Violation{Kind: "panic", Check: "C13.mac0-verify", Signature: "C13.mac0-verify:panic:" + what, Input: input + " wire=" + gen.Hex(w), PropertyFails: true})
+			} else if ok {
+				x.r.Violate(rep.Violation{Kind: "oracle", Check: "C13.mac0-verify", Signature: "C13.mac0-verify:tampered-accepted:" + strings.SplitN(what, "-", 3)[0] + "-" + strings.SplitN(what, "-", 3)[1],
+					Input: input + " wire=" + gen.Hex(w), Detail: "received tag kept, Digest recomputed on the decoded object, bytes.Equal: true", PropertyFails: true})
+			}
+		}
+		if ok, _ := verify(enc, k2, aad); ok {
+			x.r.Violate(rep.Violation{Kind: "oracle", Check: "C13.mac0-verify", Signature: "C13.mac0-verify:tampered-accepted:other-key", Input: input, PropertyFails: true})
+		}
+		if ok, _ := verify(enc, key, a2); ok {
+			x.r.Violate(rep.Violation{Kind: "oracle", Check: "C13.mac0-verify", Signature: "C13.mac0-verify:tampered-accepted:other-aad", Input: input, PropertyFails: true})
+		}
 	}
 }
